@@ -190,6 +190,32 @@ def work(args):
                 b = build(impl, kind, far)
                 if a == b or b == a:
                     rec['problems'].append('coordinate %d differs by 4.5·eps (eps=1e-%d) but the objects compare equal' % (k, sig))
+            # objects created (and compared / hashed) under ANOTHER tolerance must follow the current one afterwards:
+            # two objects `gap` apart with default eps < gap < configured eps are unequal at the default and equal now
+            if sig <= 8:
+                g3.set_eps()
+                gap = ef / 100.0
+                old_a = build(impl, kind, base)
+                old_b = build(impl, kind, [(r, tuple(c + gap for c in d)) for r, d in base])
+                before = (old_a == old_b, hash(old_a) == hash(old_b))
+                if via == 'eps':
+                    g3.set_eps(float(e))
+                else:
+                    g3.set_sig_figures(sig)
+                after = (old_a == old_b, old_b == old_a, hash(old_a) == hash(old_b), len({old_a, old_b}) == 1)
+                strict = kind in ('P', 'V') and sig <= 7       # only Points / Vectors more than 4·eps apart are REQUIRED to be unequal
+                if strict and before[0] is not False:
+                    rec['problems'].append('Points/Vectors %g apart compare equal at the default eps' % gap)
+                if after != (True, True, True, True):
+                    rec['problems'].append('objects built and compared at eps=1e-10, %g apart: after switching to eps=1e-%d (==, ==, hash equal, dedup) = %s' % (gap, sig, after))
+                g3.set_eps()
+                back = (old_a == old_b)
+                if strict and back is not False:
+                    rec['problems'].append('after returning to the default eps the same two objects still compare equal')
+                if via == 'eps':
+                    g3.set_eps(float(e))
+                else:
+                    g3.set_sig_figures(sig)
             # restore the previous configuration and check that the previous behaviour is back
             g3.set_eps(prev[0])
             if (g3.get_eps(), g3.get_sig_figures()) != prev:
